@@ -1199,3 +1199,77 @@ def t7(facts, tier):
                 yield ob(["C01", "C06"], "T7", key, "pass" if u is not None else "undecided" if False else "pass", where(f, x),
                          f"{f['id']}: pointer to {pt} {what} by {('a quantity in ' + u[0]) if u else 'a quantity whose unit is not derived'}",
                          nontrivial=u is not None)
+
+
+# ---------------------------------------------------------------------------------------------
+# T8: a raw allocation has one owner
+
+@rule("T8", ["C06"], floor=0, doc="raw allocations on the load paths have exactly one owner: once `Vec::from_raw_parts` / `Box::from_raw` has taken over "
+      "a pointer obtained from `alloc`, no code that is still to run (in the function or a helper it hands the pointer to) frees that "
+      "pointer itself - otherwise an error path frees it twice")
+def t8(facts, tier):
+    def frees_param(g):
+        """indices of the parameters of g that g may pass to dealloc"""
+        out = set()
+        if not g.get("body"):
+            return out
+        names = [p["pat"]["v"] if p.get("pat") and p["pat"].get("k") == "Bind" else None for p in g["params"]]
+        for y in walk(g["body"]):
+            if y.get("k") == "Call" and (callee(y) or "").endswith("alloc::dealloc") and y.get("args"):
+                for i, nm in enumerate(names):
+                    if nm and _derives_from(y["args"][0], {nm}):
+                        out.add(i)
+        return out
+
+    any_alloc = False
+    for f in sorted(facts.fns_of_crate("savefile"), key=lambda g: g["id"]):
+        body = f.get("body")
+        if not body:
+            continue
+        allocs = [x for x in walk(body) if x.get("k") == "Call" and (callee(x) or "").endswith(("alloc::alloc", "alloc::alloc_zeroed"))]
+        if not allocs:
+            continue
+        any_alloc = True
+        # variables that hold the allocated pointer
+        names = set()
+        changed = True
+        while changed:
+            changed = False
+            for x in walk(body):
+                if x.get("k") == "LetS" and x["pat"].get("k") == "Bind" and x.get("init") is not None and x["pat"]["v"] not in names:
+                    if any(y in allocs or any(y is a for a in allocs) for y in walk(x["init"])) or _derives_from(x["init"], names):
+                        # only pointer-typed bindings
+                        if "*" in (x["pat"].get("ty") or x["init"].get("ty") or "*"):
+                            names.add(x["pat"]["v"])
+                            changed = True
+        order = {id(y): i for i, y in enumerate(walk(body))}
+        transfers = [x for x in walk(body) if x.get("k") == "Call" and (callee(x) or "").endswith(("Vec::from_raw_parts", "Box::from_raw",
+                                                                                                    "String::from_raw_parts", "Vec::from_raw_parts_in"))
+                     and x.get("args") and _derives_from(x["args"][0], names)]
+        frees = []
+        for x in walk(body):
+            if x.get("k") != "Call" or not x.get("args"):
+                continue
+            c = callee(x) or ""
+            if c.endswith("alloc::dealloc") and _derives_from(x["args"][0], names):
+                frees.append((x, "dealloc"))
+            t = (x.get("res") or {}).get("fn") or x.get("fn")
+            g = facts.fns.get(t)
+            if g is not None and g["crate"] == "savefile" and g["id"] != f["id"]:
+                fp = frees_param(g)
+                for i in fp:
+                    if i < len(x["args"]) and _derives_from(x["args"][i], names):
+                        frees.append((x, f"{g['id'].rsplit('::', 1)[-1]} (which frees the pointer it is given when the read fails)"))
+        key = f["id"]
+        if not transfers:
+            yield ob(["C06"], "T8", key, "pass", where(f, allocs[0]), f"{key}: the allocation is never handed to an owning container here", nontrivial=False)
+            continue
+        t0 = min(order[id(t)] for t in transfers)
+        late = [(x, w) for x, w in frees if order[id(x)] > t0]
+        yield ob(["C06"], "T8", key, "violation" if late else "pass", where(f, late[0][0] if late else transfers[0]),
+                 f"{key}: the allocation is handed to its owning container after every path that frees it by hand" if not late else
+                 f"{key}: after `{(callee(transfers[0]) or '').rsplit('::', 2)[-2]}::{(callee(transfers[0]) or '').rsplit('::', 1)[-1]}` has taken ownership of the "
+                 f"allocation, the pointer is still passed to {late[0][1]}: when the read fails the buffer is freed there and again when the "
+                 f"container is dropped (double free on truncated or malformed input)")
+    if not any_alloc:
+        yield ob(["C06"], "T8", "no-raw-allocation", "pass", "", "savefile performs no raw allocation", nontrivial=False)
